@@ -78,7 +78,14 @@ def _val(c, ty):
     if c.get("zst"):
         return T("const", "zst", ty)
     if "tyconst" in c:
-        return T("const", "tyconst", c["tyconst"])
+        tc = c["tyconst"]
+        if ty in ("&str", "&'static str") and len(tc) >= 2 and tc[0] == '"' and tc[-1] == '"':
+            try:
+                raw = tc[1:-1].encode().decode("unicode_escape").encode("latin-1")
+                return T("const", "bytes", raw.hex())
+            except Exception:
+                pass
+        return T("const", "tyconst", tc)
     return T("const", "opaque", ty)
 
 
